@@ -12,6 +12,7 @@ import (
 	"io"
 	"os"
 	"path/filepath"
+	"strings"
 )
 
 // A Ruleset is the result of reading, parsing, and compiling a
@@ -102,7 +103,10 @@ func (r *Ruleset) Excludes(path string) (ExcludesResult, error) {
 		}
 		if match {
 			foundMatch = !rule.negated
-			dominating = foundMatch && !rule.negationsAfter
+			// Only a rule that ends in "**" is known to match everything
+			// below whatever it matched: "logs/*" matches "logs/" (the
+			// star matching nothing) but not "logs/app/debug.txt".
+			dominating = foundMatch && !rule.negationsAfter && strings.HasSuffix(rule.val, "**")
 		}
 	}
 	return ExcludesResult{
